@@ -1384,6 +1384,16 @@ impl<'a> UserModel<'a> {
         column_end: i32,
         width: f64,
     ) -> Result<(), String> {
+        // validate everything before the first column is touched
+        self.model.workbook.worksheet(sheet)?;
+        if !is_valid_column_number(column_start) || !is_valid_column_number(column_end) {
+            return Err(format!(
+                "Invalid column range: '{column_start}' to '{column_end}'"
+            ));
+        }
+        if width < 0.0 {
+            return Err(format!("Can not set a negative width: {width}"));
+        }
         let mut diff_list = Vec::new();
         for column in column_start..=column_end {
             // the actual width, not the visible one (0 for a hidden column)
@@ -1415,6 +1425,13 @@ impl<'a> UserModel<'a> {
         column_end: i32,
         hidden: bool,
     ) -> Result<(), String> {
+        // validate everything before the first column is touched
+        self.model.workbook.worksheet(sheet)?;
+        if !is_valid_column_number(column_start) || !is_valid_column_number(column_end) {
+            return Err(format!(
+                "Invalid column range: '{column_start}' to '{column_end}'"
+            ));
+        }
         let mut diff_list = Vec::new();
         for column in column_start..=column_end {
             let old_value = self
@@ -1483,6 +1500,11 @@ impl<'a> UserModel<'a> {
         row_end: i32,
         hidden: bool,
     ) -> Result<(), String> {
+        // validate everything before the first row is touched
+        self.model.workbook.worksheet(sheet)?;
+        if !is_valid_row(row_start) || !is_valid_row(row_end) {
+            return Err(format!("Invalid row range: '{row_start}' to '{row_end}'"));
+        }
         let mut diff_list = Vec::new();
         for row in row_start..=row_end {
             let old_value = self.model.workbook.worksheet(sheet)?.is_row_hidden(row)?;
@@ -1538,6 +1560,14 @@ impl<'a> UserModel<'a> {
         row_end: i32,
         height: f64,
     ) -> Result<(), String> {
+        // validate everything before the first row is touched
+        self.model.workbook.worksheet(sheet)?;
+        if !is_valid_row(row_start) || !is_valid_row(row_end) {
+            return Err(format!("Invalid row range: '{row_start}' to '{row_end}'"));
+        }
+        if height < 0.0 {
+            return Err(format!("Can not set a negative height: {height}"));
+        }
         let mut diff_list = Vec::new();
         for row in row_start..=row_end {
             // the actual height, not the visible one (0 for a hidden row)
